@@ -1,9 +1,13 @@
 from vlib import H
 PROPERTY = 'C50'
 LEVEL = 'model_checking'
-CLAIM = ('secp256k1 linear/encoding layer decided by CBMC directly on the real C translation unit src/secp256k1/src/secp256k1.c: '
-         'scalar set_b32/get_b32/is_high/is_zero/seckey validity/add/negate/cond_negate against big-endian byte-array references of the group order, all 256-bit inputs. '
-         'Field/scalar multiplication, inversion and the group law (hence sign/verify correctness) are outside the claim: symbolic 256x256-bit products are beyond the installed back ends.')
+CLAIM = ('secp256k1 linear/encoding layer decided by CBMC directly on the real C translation unit src/secp256k1/src/secp256k1.c, against big-endian byte-array references of n and p: '
+         'scalar set_b32/get_b32/is_high/is_zero/seckey validity/add/negate/cond_negate (all 256-bit inputs); field element set_b32_limit/set_b32_mod/get_b32/is_odd/is_zero (all 2^256 encodings), '
+         'normalize/normalize_var/normalize_weak/normalizes_to_zero(_var) for every 5x52 limb pattern up to the library maximum magnitude 32 (result canonical and congruent mod p), negate (m = 1, 8, 31), add, cmp_var, fe_equal; '
+         'ECDSA signature objects: parse_compact/serialize_compact round trip and rejection, signature_normalize (returns s > n/2, r unchanged, s\' = s or n - s, never high, idempotent, in place), ec_seckey_verify (0 < k < n), '
+         'parse_der accepts exactly strict DER SEQUENCE{INTEGER,INTEGER} (independent X.690 reader; negative/overflowing integers collapse to 0) for every byte string of lengths 0,1,2,7..12 and 70..73 with '
+         'serialize_der(parse_der(x)) == x for plain integers and parse_der(serialize_der(sig)) == sig; pointer/bounds checks on the exact-size DER input. '
+         'Field/scalar multiplication, inversion and the group law (hence sign/verify/ECDH/tweak correctness, i.e. the central sentence of the property) are outside the claim: symbolic 256x256-bit products are beyond the installed back ends.')
 HARNESSES = [
     H('scalar_codec', 'scalar.c', 'h_scalar_codec', route='A', unwind=34, timeout=300, cbmc=['--object-bits', '10'],
       functions=['secp256k1_scalar_set_b32', 'secp256k1_scalar_get_b32', 'secp256k1_scalar_is_high', 'secp256k1_scalar_is_zero', 'secp256k1_scalar_set_b32_seckey', 'secp256k1_scalar_check_overflow', 'secp256k1_scalar_reduce'],
@@ -18,6 +22,8 @@ HARNESSES = [
     H('fe_normalize', 'field.c', 'h_fe_normalize', route='A', unwind=36, timeout=300, cbmc=['--object-bits', '10'], variants=[{'MAG': 1}, {'MAG': 8}, {'MAG': 32}], backends=['default', 'cadical', 'kissat'],
       functions=['secp256k1_fe_normalize', 'secp256k1_fe_normalize_var', 'secp256k1_fe_normalize_weak', 'secp256k1_fe_normalizes_to_zero', 'secp256k1_fe_normalizes_to_zero_var', 'secp256k1_fe_get_b32', 'secp256k1_fe_is_odd', 'secp256k1_fe_is_zero'],
       bounds='every 5x52 limb pattern of magnitude <= 1, 8, 32 (32 = library maximum); reference = 272-bit big-endian value reduced by binary long division by p'),
+    H('fe_normalize_longdiv', 'field.c', 'h_fe_normalize', route='A', tier='thorough', unwind=36, timeout=900, cbmc=['--object-bits', '10'], variants=[{'MAG': 1, 'LONGDIV': 1}, {'MAG': 8, 'LONGDIV': 1}], backends=['default', 'cadical', 'kissat'],
+      functions=['secp256k1_fe_normalize'], bounds='limb patterns of magnitude <= 1 and <= 8; residue additionally recomputed by binary long division by p (cross-check of the congruence oracle)'),
     H('fe_negate', 'field.c', 'h_fe_negate', route='A', unwind=36, timeout=300, cbmc=['--object-bits', '10'], variants=[{'MAG': 1}, {'MAG': 8}, {'MAG': 31}],
       functions=['secp256k1_fe_negate', 'secp256k1_fe_add', 'secp256k1_fe_normalizes_to_zero', 'secp256k1_fe_normalize', 'secp256k1_fe_get_b32'],
       bounds='every limb pattern of magnitude <= m for m = 1, 8, 31 (negate called with that m; 31 = largest m the library allows)', assumptions=['operands respect the magnitude preconditions documented in field.h']),
